@@ -403,10 +403,11 @@ func MergeConfig(a, b *Config) *Config {
 	if b.DisableCoordinates {
 		result.DisableCoordinates = true
 	}
-	if b.Tags != nil {
-		if result.Tags == nil {
-			result.Tags = make(map[string]string)
-		}
+	// Merge the tags into a fresh map so that the result does not share (and
+	// later merges do not modify) the map of either input.
+	if a.Tags != nil || b.Tags != nil {
+		result.Tags = make(map[string]string, len(a.Tags)+len(b.Tags))
+		maps.Copy(result.Tags, a.Tags)
 		maps.Copy(result.Tags, b.Tags)
 	}
 	if b.BindAddr != "" {
@@ -514,6 +515,12 @@ func MergeConfig(a, b *Config) *Config {
 	}
 	if b.BroadcastTimeout != 0 {
 		result.BroadcastTimeout = b.BroadcastTimeout
+	}
+	if b.ValidateNodeNames {
+		result.ValidateNodeNames = true
+	}
+	if b.MsgpackUseNewTimeFormat {
+		result.MsgpackUseNewTimeFormat = true
 	}
 	result.EnableCompression = b.EnableCompression
 
